@@ -61,6 +61,18 @@ theorem mem_noteExit_evtQ {s : Sys} {w : Wid} {e : Evt} (i : Wid) (cur : Pid) (x
     · exact h
   · exact h
 
+theorem mem_noteExit_cases {s : Sys} {w : Wid} {e : Evt} {i : Wid} {cur : Pid} {x : Proc}
+    (h : e ∈ (s.noteExit i cur x).evtQ w) : e ∈ s.evtQ w ∨ e = .exited cur := by
+  unfold Sys.noteExit at h; split at h
+  · have h' : e ∈ upd s.evtQ i (s.evtQ i ++ [Evt.exited cur]) w := h
+    unfold upd at h'; split at h'
+    · rename_i hw; subst hw
+      rcases List.mem_append.mp h' with h1 | h1
+      · exact Or.inl h1
+      · exact Or.inr (by simpa using h1)
+    · exact Or.inl h'
+  · exact Or.inl h
+
 /-- the event queues after `noteExit`: unchanged, or the ProcessExited of `cur` appended to worker `i`'s -/
 theorem noteExit_evtQ (s : Sys) (i : Wid) (cur : Pid) (x : Proc) :
     (s.noteExit i cur x).evtQ = s.evtQ ∨ (s.noteExit i cur x).evtQ = upd s.evtQ i (s.evtQ i ++ [.exited cur]) := by
